@@ -68,10 +68,12 @@ fn initial(set: usize, init_removed: &[u64]) -> InstRep {
     InstRep {
         sense: SENSE_MIN,
         objective: Some(FnRep::Lin { terms: vec![(1, 1.0)], c: 0.0 }),
-        vars: vec![VarRep::new(1, KIND_CONTINUOUS, None), VarRep::new(2, KIND_CONTINUOUS, None), v7],
-        constraints: cons.iter().filter(|c| !init_removed.contains(&c.id)).cloned().collect(),
+        // the lists are sets: variables and constraints are listed out of id order (set order rotated by one)
+        vars: vec![VarRep::new(2, KIND_CONTINUOUS, None), v7, VarRep::new(1, KIND_CONTINUOUS, None)],
+        constraints: cons.iter().cycle().skip(1).take(cons.len()).filter(|c| !init_removed.contains(&c.id)).cloned().collect(),
         removed: cons
             .iter()
+            .rev()
             .filter(|c| init_removed.contains(&c.id))
             .map(|c| RemRep { constraint: c.clone(), reason: format!("init-{}", c.id), parameters: vec![("i".into(), "0".into())] })
             .collect(),
